@@ -545,6 +545,57 @@ WOrd == {MCWorld(q) : q \in {[sch |-> "strict", d |-> 2, dev |-> "none", i |-> 0
                              [sch |-> "strict", d |-> 2, dev |-> "twinforged", i |-> 1], [sch |-> "strict", d |-> 2, dev |-> "twinabsent", i |-> 1],
                              [sch |-> "strict", d |-> 2, dev |-> "forged", i |-> 1], [sch |-> "strict", d |-> 2, dev |-> "absent", i |-> 1],
                              [sch |-> "strict", d |-> 3, dev |-> "subst", i |-> 2], [sch |-> "peer", d |-> 3, dev |-> "none", i |-> 0]}}
+(* RE-CERTIFIED KEYS: ONE KEY, SEVERAL CERTIFICATES ON ONE CHAIN. A key may hold several certificates (same key name,
+   other issuer / version), and more than one of them may lie on the SAME chain: the key kA1, certified by the root
+   (certificate A1), certifies other keys, one of which certifies kA1 again (certificate A1b: cross- / re-certification):
+        P1 - [A3 -] A1b - (g certificates: A2 / A3, A2) - A1 - [X -] RA
+   No CERTIFICATE occurs twice, every link is allowed by the overlapping-rule schema ("peer"; under the strict schema the
+   signing relation between name shapes is acyclic and no key name can come back), every signature verifies: the chain
+   exists. What must not repeat on a chain is a certificate NAME (Fetch: onStack compares names) - a key NAME may.
+     g    certificates between the two certificates of the key (0: A1b is issued with the key itself, which it names as A1)
+     bl   1: the packet is signed by a further key (kA3) that A1b certifies - the re-certified key is not the packet signer
+     ab   1: A1 is issued by X, which the root issues - the re-certified key is not directly under the anchor
+   (g + bl + ab <= 2: at most 4 certificates between packet and anchor, MaxK.)
+   P2 is signed with kA1 as well and names A1: the short chain. An instance that validated P2 holds A1 (and only A1).
+   x: "none"; "reloop" A1 is issued under A1b's name - a loop of certificate names through both certificates of the key,
+   no chain for P1 and P2; "reforged" / "reabsent": the upper certificate A1 is forged / not retrievable - no chain, although
+   another certificate of the very key was validated / is being validated.                                          *)
+ReDevs == {"reloop", "reforged", "reabsent"}
+ReWorld(g, bl, ab, x) ==
+  LET w == MCWorld([sch |-> "peer", d |-> 2, dev |-> "none", i |-> 0])
+      top == IF ab = 1 THEN "X" ELSE "RA"
+      topKey == IF ab = 1 THEN "kX" ELSE "kRA"
+      iss == IF g = 0 THEN "A1" ELSE IF g = 1 THEN "A2" ELSE "A3"          \* issuer of A1b
+      issKey == IF g = 0 THEN "kA1" ELSE IF g = 1 THEN "kA2" ELSE "kA3"
+      leaf == IF bl = 1 THEN "A3" ELSE "A1b"
+      leafKey == IF bl = 1 THEN "kA3" ELSE "kA1"
+      names == {"A1", "A1b"} \cup (IF g >= 1 THEN {"A2"} ELSE {}) \cup (IF g = 2 \/ bl = 1 THEN {"A3"} ELSE {})
+                             \cup (IF ab = 1 THEN {"X"} ELSE {})
+      cs == [n \in names |->
+               IF n = "A1" THEN [key |-> "kA1", kl |-> IF x = "reloop" THEN "A1b" ELSE top,
+                                 sig |-> IF x = "reloop" THEN "kA1" ELSE IF x = "reforged" THEN "forged" ELSE topKey,
+                                 serv |-> IF x = "reabsent" THEN "absent" ELSE "yes"]
+               ELSE IF n = "A1b" THEN [key |-> "kA1", kl |-> iss, sig |-> issKey, serv |-> "yes"]
+               ELSE IF n = "A2" THEN [key |-> "kA2", kl |-> "A1", sig |-> "kA1", serv |-> "yes"]
+               ELSE IF n = "A3" THEN (IF bl = 1 THEN [key |-> "kA3", kl |-> "A1b", sig |-> "kA1", serv |-> "yes"]
+                                               ELSE [key |-> "kA3", kl |-> "A2", sig |-> "kA2", serv |-> "yes"])
+               ELSE [key |-> "kX", kl |-> "RA", sig |-> "kRA", serv |-> "yes"]]
+  IN [w EXCEPT !.certs = cs @@ w.certs,
+               !.shape = [n \in {"A1b"} |-> "c1"] @@ w.shape,
+               !.twin = [n \in {"A1b"} |-> "A1"],
+               !.pkts = [n \in {"P1", "P2", "P3"} |-> IF n = "P1" THEN [kl |-> leaf, sig |-> leafKey]
+                                                      ELSE IF n = "P2" THEN [kl |-> "A1", sig |-> "kA1"] ELSE w.pkts[n]],
+               !.q = [sch |-> "peer", d |-> g + bl + ab + 2, dev |-> x, i |-> 0, re |-> <<g, bl, ab>>]]
+ReShapes == {t \in (0..2) \X (0..1) \X (0..1) : t[1] + t[2] + t[3] <= 2}
+\* thorough: every place of the re-certified key, clean and with every deviation; quick: every place clean, the deviations
+\* on the shortest and on one long chain
+WReT == {ReWorld(t[1], t[2], t[3], "none") : t \in ReShapes} \cup {ReWorld(t[1], t[2], t[3], x) : t \in ReShapes, x \in ReDevs}
+WReQ == {ReWorld(t[1], t[2], t[3], "none") : t \in ReShapes}
+        \cup {ReWorld(t[1], t[2], t[3], x) : t \in {<<0, 0, 0>>, <<1, 0, 1>>}, x \in ReDevs}
+\* (for the executor's history graphs: the chains with 2, 3 and 4 fetched certificates)
+WReH == {ReWorld(t[1], t[2], t[3], "none") : t \in {<<0, 0, 0>>, <<1, 0, 0>>, <<1, 1, 0>>, <<2, 0, 0>>}}
+        \cup {ReWorld(1, 0, 0, x) : x \in ReDevs}
+WAll4Re == WAll4 \cup WReT
 AllKeys == {"kRA", "kRB", "kA1", "kA2", "kA3", "kB1", "kO"}
 WEd == {[MCWorld(q) EXCEPT !.alg = [k \in AllKeys |-> "ed"]] : q \in {[sch |-> "strict", d |-> 2, dev |-> "none", i |-> 0],
                                                                      [sch |-> "strict", d |-> 2, dev |-> "forged", i |-> 1]}}
@@ -612,7 +663,17 @@ W_Refetch == ~(\E a \in Apps : Len(wire[a]) >= 2 /\ wire[a][1] = wire[a][Len(wir
 \* (one certificate under two names, three validations: the third fetch happens only because the entry was evicted)
 W_Evicted == ~(\E v \in Inst : inst[v].store = "fifo1" /\ Len(out) = 3 /\ (\A i \in 1..3 : out[i].r = "T") /\ Len(wire[AppOf(v)]) = 3)
 W_Forgot == ~(\E v \in Inst : inst[v].store = "app" /\ Len(out) = 2 /\ out[1].r = "T" /\ out[2].r = "T" /\ out[1].p = out[2].p /\ Len(wire[AppOf(v)]) = 2)
-W_TwoInFlight == ~(\A v \in Slots : val[v].k = "run" /\ val[v].pc = "fetching")
+\* a packet is accepted over a chain on which one key holds two certificates, both fetched within that one validation;
+\* ... and by an instance that held the upper one already (validated the short chain before): one fetch of A1 in all
+Asked(a, n) == Cardinality({i \in 1..Len(wire[a]) : wire[a][i] = n})
+W_RecertAccept == ~("re" \in DOMAIN W.q /\ Len(out) = 1 /\ out[1].r = "T" /\ out[1].p = "P1"
+                    /\ \E a \in Apps : Asked(a, "A1") = 1 /\ Asked(a, "A1b") = 1 /\ Len(wire[a]) >= 3)
+W_RecertWarm == ~("re" \in DOMAIN W.q /\ Len(out) = 2 /\ out[1].r = "T" /\ out[2].r = "T" /\ out[1].p = "P2" /\ out[2].p = "P1"
+                  /\ out[1].v = out[2].v /\ Asked(AppOf(out[1].v), "A1") = 1 /\ Asked(AppOf(out[1].v), "A1b") = 1)
+\* a loop through both certificates of the key is refused
+W_RecertLoop == ~("re" \in DOMAIN W.q /\ W.q.dev = "reloop" /\ Len(out) = 1 /\ out[1].r = "F" /\ out[1].p = "P1"
+                  /\ \E a \in Apps : Asked(a, "A1") = 1 /\ Asked(a, "A1b") = 1)
+W_TwoInFlight ==~(\A v \in Slots : val[v].k = "run" /\ val[v].pc = "fetching")
 \* two validations of ONE instance wait for the same certificate, and both end accepted
 W_SameInstanceTwice == ~(\E v \in Inst : Cardinality({i \in 1..Len(out) : out[i].v = v /\ out[i].r = "T"}) >= 2
                                          /\ Len(wire[AppOf(v)]) >= 2 /\ wire[AppOf(v)][1] = wire[AppOf(v)][2])
